@@ -404,10 +404,20 @@ class Frame:
             return base if base is not None else ("fld", t, name)
         if tag == "elem":
             it = t[1]
+            # `.take(n)` outside a zip / enumerate limits the length, not what an element is: a.zip(b).take(n) streams a.take(n), b.take(n)
+            takes = []
+            while isinstance(it, tuple) and len(it) == 3 and it[0] == "take" and isinstance(it[1], tuple) and it[1] and it[1][0] in ("zip", "enumerate", "take"):
+                takes.append(it[2])
+                it = it[1]
+
+            def lim(x):
+                for n_ in reversed(takes):
+                    x = ("take", x, n_)
+                return x
             if isinstance(it, tuple) and it and it[0] == "zip" and name in ("0", "1"):
-                return self.elem(it[1 + int(name)])
+                return self.elem(lim(it[1 + int(name)]))
             if isinstance(it, tuple) and it and it[0] == "enumerate" and name in ("0", "1"):
-                return ("index", it[1]) if name == "0" else self.elem(it[1])
+                return ("index", lim(it[1])) if name == "0" else self.elem(lim(it[1]))
         return ("fld", t, name)
 
     def index(self, t, i):
@@ -472,6 +482,9 @@ class Frame:
             return self.closure_ret(m[2], [self.elem((tag, m[1], it[2]), stamp)], site_hint=m[3] if len(m) > 3 else None)
         if tag in ("take", "skip") and isinstance(it[1], tuple) and it[1] and it[1][0] == "enumerate":
             return ("tuple", (("index", st(it)), self.elem((tag, it[1][1], it[2]), stamp)))
+        if tag in ("take", "skip") and isinstance(it[1], tuple) and it[1] and it[1][0] == "zip":
+            # a.zip(b).take(n) streams the pairs of a.take(n) and b.take(n)
+            return ("tuple", (self.elem((tag, it[1][1], it[2]), stamp), self.elem((tag, it[1][2], it[2]), stamp)))
         return ("elem", st(it))
 
     def operand_term(self, op):
